@@ -209,6 +209,9 @@ func init() {
 		RuleReadBuffers(r, p)
 		RuleShareIn(r, p, aspectSet{"T8": true, "T7": true}, func(parent string) bool { return returnsListName(p, parent) })
 		RuleR3(r, p)
+		// malformed datagrams never make the call fail: the codec (hex dump included) is handed every datagram,
+		// whatever its length, by the collector goroutine - its index and slice sites are discharged
+		RulePanicIn(r, p, tier, codecRel, map[string]int{"P1": 5})
 	}
 
 	checks["C12"] = func(r *Report, p *Program, tier string) {
@@ -290,6 +293,8 @@ func init() {
 		RuleK5(r, c)
 		RuleK6(r, c)
 		RuleK19(r, c)
+		RuleK20(r, c)
+		RuleK9(r, c)
 		// neither panics: the index, slice, assertion and explicit-panic sites of the codec package itself
 		RulePanicIn(r, p, tier, codecRel, map[string]int{"P1": 5, "P3": 0, "P4": 0})
 		RuleK7(r, c)
